@@ -127,6 +127,9 @@ class Report:
                 replay_paths.append(p)
                 print("VIOLATION property=%s replay=%s" % (self.prop, p))
                 print("   rule=%s instance=%s %s %s" % (o.rule, o.instance, o.loc, o.detail))
+        from .genabs import absint as _gabs
+        if _gabs.TRUNCATED and not new:
+            raise AnalysisError("analysis incomplete: %s; no violation on the explored paths, but the property cannot be concluded" % _gabs.TRUNCATED[0])
         if affine.truncated_paths and not new:
             raise AnalysisError("analysis incomplete: %d path(s) were cut at a data-dependent loop (%s); "
                                 "no violation on the explored paths, but the property cannot be concluded"
